@@ -48,6 +48,7 @@ type stepDesc struct {
 	Elems   []elem  `json:"elems"`
 	Err     errDesc `json:"err"`
 	Flavour int     `json:"flavour"`
+	Site    int     `json:"site,omitempty"` // >= 36: one of the exotic call sites, used as is
 	// recorded, not inputs:
 	Rendered string `json:"rendered,omitempty"` // fmt.Sprintf(format, elems...)
 	Orig     string `json:"orig,omitempty"`     // fmt.Sprintf("originalError: %+v", err)
@@ -145,6 +146,14 @@ func methodIndex(name string) int {
 
 // ---------------------------------------------------------------- running a chain
 
+// siteID: step k of a chain is issued from sites[4*k+flavour], unless an exotic site is named.
+func siteID(k int, s *stepDesc) int {
+	if s.Site >= firstExotic && s.Site < len(sites) {
+		return s.Site
+	}
+	return 4*(k%9) + s.Flavour%4
+}
+
 func siteOfFrame(name string) int64 {
 	for i, s := range sites {
 		if s.frame == name {
@@ -187,7 +196,7 @@ func runChain(f gerror.Factory, steps []stepDesc) (obs []viewJ, pan string) {
 		a := argsOf(s)
 		s.Rendered = fmt.Sprintf(s.Format, a.Elems...)
 		s.Orig = fmt.Sprintf("originalError: %+v", a.Err)
-		e := sites[4*(k%9)+s.Flavour%4].fn(cur, methodIndex(s.M), a)
+		e := sites[siteID(k, s)].fn(cur, methodIndex(s.M), a)
 		obs = append(obs, viewOf(e))
 		cur = e.(gerror.Factory)
 	}
@@ -230,7 +239,7 @@ func gerrVal(d errDesc) string {
 }
 
 func gstep(k int, s stepDesc) string {
-	id := 4*(k%9) + s.Flavour%4
+	id := siteID(k, &s)
 	return "(M" + s.M + ", mkA " + gstr(s.Src) + " " + gstr(s.DTag) + " " + gstr(s.Rendered) + " " +
 		gerrVal(s.Err) + " " + gstr(s.Orig) + " " + strconv.Itoa(id) + " " + gstr(sites[id].derived) + ")"
 }
@@ -240,11 +249,13 @@ func emit(out *gal.Out, kind string, fd facDesc, steps []stepDesc) caseJ {
 	obs, pan := runChain(f, steps)
 	after := viewOf(f.(gerror.Error))
 	gs := make([]string, len(steps))
+	fr := make([]string, len(steps))
 	for k, s := range steps {
 		gs[k] = gstep(k, s)
+		fr[k] = gstr(sites[siteID(k, &steps[k])].frame)
 	}
 	g := "({| k_name := " + gstr(fd.Name) + "; k_msg := " + gstr(fd.Msg) + "; k_src := " + gstr(fd.Src) +
-		"; k_isfac := " + gal.Bool(fd.IsFac) + "; k_steps := " + gal.List(gs) +
+		"; k_isfac := " + gal.Bool(fd.IsFac) + "; k_steps := " + gal.List(gs) + "; k_frames := " + gal.List(fr) +
 		"; k_obs := " + gal.ListOf(obs, gview) + "; k_fac_after := " + gview(after) + " |})%N"
 	c := caseJ{kind, fd, steps, obs, after, pan}
 	out.Case(g, asciiJSON(c))
@@ -562,7 +573,7 @@ func conc(r *rand.Rand, out *gal.Out, n, rounds int, prefix string) {
 func main() {
 	seed := flag.Uint64("seed", 1, "PRNG seed")
 	prefix := flag.String("out", "c15", "output prefix")
-	mode := flag.String("mode", "random", "corpus|random|nearmiss|sweep|replay|conc")
+	mode := flag.String("mode", "random", "corpus|random|nearmiss|sweep|exotic|replay|conc")
 	n := flag.Int("n", 300, "number of cases")
 	rounds := flag.Int("rounds", 3, "conc: how often every goroutine runs every chain")
 	in := flag.String("in", "", "replay: JSON file with a list of {fac, steps}")
@@ -598,6 +609,14 @@ func main() {
 					s2 := stepDesc{M: m2, Src: "s2", DTag: "t2", Format: "f%d", Elems: []elem{{"int", "2"}}, Err: errDesc{Kind: "slice", Msg: "e2"}, Flavour: j % 4}
 					emit(out, "sweep", presets[pi], []stepDesc{s1, s2})
 				}
+			}
+		}
+	case "exotic":
+		// less usual frame-name shapes: one step from a source-less factory
+		for id := firstExotic; id < len(sites); id++ {
+			for _, m := range []string{"SourceOnly", "Stack", "Msg", "Base"} {
+				emit(out, "exotic", facDesc{Name: "ErrE", Msg: "m", IsFac: true},
+					[]stepDesc{{M: m, Format: "x", Err: errDesc{Kind: "none"}, Site: id}})
 			}
 		}
 	case "nearmiss":
